@@ -39,6 +39,8 @@ def configs(tier):
         cfgs.append(dict(group='large_window', k=k, _cost=k))
     for k in (2, 3, 4):
         cfgs.append(dict(group='rejected_value', k=k, _cost=50))
+    for k in (1, 2, 3):
+        cfgs.append(dict(group='independent_copies', k=k, _cost=50))
     return cfgs
 
 
@@ -205,3 +207,34 @@ def _offset_window_replay(env, k):
 
 META['explanation'] += ' constant_window_fp: under the standard rounding model a window of k copies of a symbolic value c reports a variance <= 64 u^2 c^2 (no catastrophic cancellation for data with a large offset); replay = binary64 runs against exact rationals. large_window: concrete window sizes up to 257 (thorough 1000), mean claims around the fill point and both wrap-arounds.'
 META['outside'] = [o for o in META['outside'] if not o.startswith('floating-point rounding')] + ['floating-point rounding of nanmean / nanvar beyond the constant-window bound']
+
+
+def _independent_copies(env, cfg):
+    """deep copies of a window tracker (MultiValueTracker makes one per key) own their window: each reports the statistics
+    of the last min(n, k) values IT was given"""
+    import copy
+    k = cfg['k']
+    t = guarded(env, 'constructor_on_installed_numpy', SlidingWindowTracker, k)
+    own = []
+    for i in range(k):
+        v = env.real(f"v{i}")
+        guarded(env, 'update', t.update, v)
+        own.append(v)
+    c = guarded(env, 'deepcopy', copy.deepcopy, t)
+    copy_vals = list(own)
+    for i in range(k + 1):
+        w = env.real(f"w{i}")
+        guarded(env, 'update_copy', c.update, w)
+        copy_vals.append(w)
+        last = own[-k:]
+        m = guarded(env, 'mean', lambda: t.mean)
+        env.claim('original_window_untouched_by_updates_of_its_copy', eq(m * len(last), total(last)), detail=f"k={k}, after {i + 1} updates of the copy")
+        lc = copy_vals[-k:]
+        mc = guarded(env, 'mean', lambda: c.mean)
+        env.claim('copy_reports_its_own_last_k_values', eq(mc * len(lc), total(lc)))
+    u = env.real('u')
+    guarded(env, 'update', t.update, u)
+    own.append(u)
+    lc = copy_vals[-k:]
+    env.claim('copy_window_untouched_by_updates_of_the_original', eq(c.mean * len(lc), total(lc)))
+    env.claim('original_continues_with_its_own_values', eq(t.mean * min(k, len(own)), total(own[-k:])))
